@@ -22,6 +22,9 @@ func c08Jobs(c *vk.Ctx) []Job {
 					continue
 				}
 				for _, f := range filts {
+					if s == 4 && f != 0 && !c.Thorough() {
+						continue
+					}
 					jobs = append(jobs, Job{Harness: "MergeReq", Bound: -1, BudgetS: vk.Pick(c, 6.0, 90.0), FallbackDelay: vk.Pick(c, 3, 6), Params: map[string]int{"n": 2, "m0": m0, "m1": m1, "script": s, "filt": f}})
 				}
 			}
@@ -45,7 +48,7 @@ func c08Merge(c *vk.Ctx) {
 		return
 	}
 	jobs := c08Jobs(c)
-	c.P.Rule = "E1: every schedule of one merge session over n scripted REQ children (menu: stored+EOSE, EOSE+live, unsorted, non-matching, duplicate-of-sibling, EOSE-only, late-EOSE) for every pair of child modes x 4 client scripts ([REQ s], [REQ s, CLOSE s], [REQ s, after EOSE: REQ s], [REQ s, REQ t]) x filter sets (no limit, limit 1, limit 2, two filters); n=2 unbounded (complete up to happens-before state caching) within a per-job time budget, else complete up to a delay bound (deviations from the deterministic default scheduler); n=3 delay-bounded; a job = (modes, script, filters); distinct_outcomes = distinct client-visible streams"
+	c.P.Rule = "E1: every schedule of one merge session over n scripted REQ children (menu: stored+EOSE, EOSE+live, unsorted, non-matching, duplicate-of-sibling, EOSE-only, late-EOSE) for every pair of child modes x 5 client scripts ([REQ s], [REQ s, CLOSE s], [REQ s, after EOSE: REQ s], [REQ s, REQ t], [REQ s, CLOSE s, REQ t]) x filter sets (no limit, limit 1, limit 2, two filters); n=2 unbounded (complete up to happens-before state caching) within a per-job time budget, else complete up to a delay bound (deviations from the deterministic default scheduler); n=3 delay-bounded; a job = (modes, script, filters); distinct_outcomes = distinct client-visible streams"
 	res := runJobs(c, jobs)
 	for i, r := range res {
 		if i%131 == 0 {
